@@ -93,7 +93,10 @@ func (l *enumValueLoader) commentEnd(lex lexeme.LexEvent) {
 		panic(errs.ErrLoader.F())
 	}
 
-	l.enumConstraint.SetComment(l.lastIdx, lex.Value().String())
+	if l.lastIdx < l.enumConstraint.Len() {
+		// A comment written before the first item belongs to no item.
+		l.enumConstraint.SetComment(l.lastIdx, lex.Value().String())
+	}
 	l.stateFunc = l.annotationEnd
 }
 
